@@ -94,6 +94,39 @@ func init() {
 		}
 		return int(n - 1)
 	}
+	// And / Or: boolean connectives that do NOT fork the path (Go's && and ||
+	// compile to branches); harnesses use them for order-free "exists" laws.
+	boolOp := func(op string) externalFn {
+		return func(fr *frame, args []value) value {
+			a, aok := args[0].(bool)
+			b, bok := args[1].(bool)
+			switch {
+			case aok && bok:
+				if op == "and" {
+					return a && b
+				}
+				return a || b
+			case aok:
+				if (op == "and") != a {
+					return a
+				}
+				return args[1]
+			case bok:
+				if (op == "and") != b {
+					return b
+				}
+				return args[0]
+			}
+			ta, _, ok1 := termOf(args[0])
+			tb, _, ok2 := termOf(args[1])
+			if !ok1 || !ok2 {
+				panic(engineUnsupported{"rt.And/Or of non-boolean values"})
+			}
+			return symv{sort: 'B', term: "(" + op + " " + ta + " " + tb + ")"}
+		}
+	}
+	externals[rtPkg+".And"] = boolOp("and")
+	externals[rtPkg+".Or"] = boolOp("or")
 	externals[rtPkg+".Assume"] = func(fr *frame, args []value) value { ex(fr).assume(args[0]); return nil }
 	externals[rtPkg+".Assert"] = func(fr *frame, args []value) value {
 		ex(fr).assert(args[0], goString(args[1]))
